@@ -348,3 +348,22 @@ def classify_panic(out):
             return dict(sig="client-panic", desc="the client panicked at %s:%s: %s\n%s" % (path, line, msg, block[:2000]))
         return None
     return None
+
+
+def classify_race(out):
+    """A race-detector report: violation dict if both conflicting accesses are in the code under test, None if the
+    harness is involved (a harness bug)."""
+    i = out.find("WARNING: DATA RACE")
+    if i < 0:
+        return None
+    block = out[i:i + 5000]
+    secs = block.split("\n\n")
+    tops = []
+    for sec in secs[:2]:
+        m = re.search(r"\n\s+(/\S+\.go):(\d+)", sec)
+        tops.append(m.group(1) if m else "")
+    def in_client(p):
+        return p.startswith(REPO + "/") and "zz_verif" not in p and "/internal/verifsim/" not in p
+    if len(tops) == 2 and all(in_client(p) for p in tops):
+        return dict(sig="data-race", desc="the race detector reports a data race in the client (%s vs %s):\n%s" % (tops[0], tops[1], block[:2500]))
+    return None
